@@ -1364,6 +1364,16 @@ class ktensor:
          [0.5 0.5]
          [0.5 0.5]]
         """
+        if not (
+            weight_factor is None
+            or (isinstance(weight_factor, str) and weight_factor == "all")
+            or weight_factor in range(self.ndims)
+        ):
+            assert False, (
+                "Parameter weight_factor is invalid; must be 'all' or an int in "
+                "range of number of dimensions"
+            )
+
         # when mode is specified, just normalize self.factor_matrices[mode]
         if mode is not None:
             if mode in range(self.ndims):
